@@ -233,12 +233,13 @@ def s3_cases(tier: str, n: grammar.Names) -> list[tuple[tuple, dict[str, Any]]]:
                 body = (("out", V("i")), ("if", ((("cmp", "==", V("forloop", "index"), I(k)), ((interrupt,),)),), None), ("text", "."))
                 cases.append(((("for", "i", V("it"), (), body, None), ("out", V("i"))), {"it": it}))
     # pairs / triples of loops over the same iterable: offset: continue depends on the previous loop
-    specs = [(), (("limit", I(1)),), (("limit", I(2)), ("offset", I(1))), (("offset", "continue"),), (("offset", "continue"), ("limit", I(1))), (("reversed",), ("limit", I(2)))]
+    specs = [(), (("limit", I(1)),), (("limit", I(2)), ("offset", I(1))), (("offset", "continue"),), (("offset", "continue"), ("limit", I(1))), (("reversed",), ("limit", I(2))), (("reversed",),), (("reversed",), ("offset", I(1)))]
     depth = 2 if tier == "quick" else 3
     for combo in itertools.product(specs, repeat=depth):
         for it in ([1, 2, 3, 4, 5], [], range(1, 4)):
             prog = tuple(("for", "i", V("it"), o, (("out", V("i")),), (("text", "-"),)) for o in combo) + (("for", "j", V("it"), (("offset", "continue"),), (("out", V("j")),), None),)
             cases.append((prog, {"it": it}))
+            cases.append((prog[:-1] + (("for", "i", V("it"), (("offset", "continue"),), (("out", V("i")),), (("text", "~"),)),), {"it": it}))
     # two-level nests: parentloop
     for it1, it2 in itertools.product(([1, 2], [], [1]), ([7, 8], [], "ab")):
         body2 = (("out", V("forloop", "parentloop", "index")), ("out", V("forloop", "index")), ("out", V("forloop", "parentloop", "last")), ("out", V("i")), ("out", V("j")), ("text", " "))
